@@ -17,7 +17,7 @@ ASSUMPTIONS = ["clang's CFG (with implicit destructors) is a faithful over-appro
                "the lock idioms in engine/kinds.py are the only ways these functions acquire or release mtx_",
                "detail::condition_variable::wait*/notify_one behave as decided under C02/C07"]
 THOROUGH_CONFIGS = [["-UNDEBUG", "-DPIKA_DEBUG"]]
-FLOORS = {"C06.R1": 8, "C06.R2": 4, "C06.R3": 2, "C06.R4": 4, "C06.R5": 6, "C06.R6": 6, "C06.R7": 5, "C06.R8": 6}
+FLOORS = {"C06.R1": 8, "C06.R2": 4, "C06.R3": 2, "C06.R4": 4, "C06.R5": 6, "C06.R6": 6, "C06.R7": 5, "C06.R8": 6, "C06.R9": 6}
 
 INVALID = "pika::threads::detail::invalid_thread_id"
 OWNER = "this->owner_id_"
@@ -57,6 +57,9 @@ def run(rep, tier):
                        "lock() returns only through a successful acquisition")
     rep.rule("C06.R6", "K4: recursive_mutex_impl: inner mutex taken before owner/recursion are set, released only at depth 0")
     rep.rule("C06.R7", "K9: lock types are neither copyable nor movable")
+    rep.rule("C06.R9", "K2/K3 (shared with C02.R1/R2, C07.R5): the internal condition variable behind lock()/try_lock_until()/unlock(): a locker is queued while the "
+                       "internal lock is held, before it is released, before the task suspends; the timeout/signaled result is read with the lock re-acquired; "
+                       "notify_one resumes the dequeued waiter exactly once - otherwise an unlock's single wake-up is swallowed or lost")
     rep.rule("C06.R8", "K4/K7: mutex::lock refuses exactly when the caller already owns the mutex (no wait, no acquisition on that "
                        "edge; every other give-up is an error reported by the wait); every turn of its owner loop parks in "
                        "cond_.wait; timed_mutex::try_lock_until gives up after its wait only on timeout, error or a mutex "
@@ -176,6 +179,12 @@ def run(rep, tier):
                 raise AnalysisBroken("%s returns a non-literal (%s): rule C06.R4 needs updating" % (n, T(val)))
 
     misuse_and_wait_rules(rep, fns)
+
+    # R9: the internal condition variable the mutexes block on (anchor file of C06; the same rules decide C02.R1/R2 and C07.R5)
+    from . import cvdetail
+    CVF = cvdetail.load(rep)
+    cvdetail.wait_rules(rep, "C06.R9", CVF)
+    cvdetail.notify_rules(rep, "C06.R9", CVF)
 
     # R5/R6: header-only lock types through the driver
     D = facts(rep, driver("c06_mutex.cpp"),
